@@ -27,6 +27,16 @@ func (m *Machine) typeToken(t types.Type) *Value {
 	return act.(*Value)
 }
 
+// protoTypeGlobal reads protoreflect's own type sentinel (stringType, bytesType, ...).
+func (m *Machine) protoTypeGlobal(name string) *Value {
+	g, _ := m.Prog.Package(protoreflectPkg).Members[name].(*ssa.Global)
+	if g == nil {
+		m.unsupported("protoreflect." + name + " not found")
+	}
+	p, _ := m.load(m.global(g)).(*Value)
+	return p
+}
+
 func init() {
 	P := protoreflectPkg
 	reg(P+".typeOf", func(m *Machine, fn *ssa.Function, args []Value) Value {
@@ -40,13 +50,13 @@ func init() {
 		s := args[0].(Str)
 		cell := new(Value)
 		*cell = s
-		return mkValue(m, m.typeToken(types.Typ[types.String]), cell, m.C.BV(64, uint64(s.Len())))
+		return mkValue(m, m.protoTypeGlobal("stringType"), cell, m.C.BV(64, uint64(s.Len())))
 	})
 	reg(P+".valueOfBytes", func(m *Machine, fn *ssa.Function, args []Value) Value {
 		s, _ := args[0].(Slice)
 		cell := new(Value)
 		*cell = s
-		return mkValue(m, m.typeToken(types.NewSlice(types.Typ[types.Uint8])), cell, m.C.BV(64, uint64(len(s))))
+		return mkValue(m, m.protoTypeGlobal("bytesType"), cell, m.C.BV(64, uint64(len(s))))
 	})
 	reg(P+".valueOfIface", func(m *Machine, fn *ssa.Function, args []Value) Value {
 		i := args[0].(Iface)
